@@ -342,7 +342,7 @@ WORDS = ["Red", "Green", "Blue", "Low", "Mid", "High", "Open", "Closed", "North"
 TYPE_NAMES = ["Color", "Level", "State", "Mode", "Kind", "Dir", "Perm", "Flag", "Status", "Phase", "Op",
               "Weekday", "HTTPCode", "level", "color", "myState", "Lvl2", "Item_Type", "IOMode", "URL", "T",
               "Shape", "Suit", "Rank", "Tier", "Grade", "Unit", "Axis", "Role", "Prio", "Sev", "Lang", "Zone",
-              "FormatStyle", "access_mode", "bitSet", "Mask"]
+              "FormatStyle", "access_mode", "bitSet", "Mask", "Visibility", "vmode", "Index"]
 RESERVED = {"x", "fmt", "bytes", "errors", "json", "driver", "shoot", "gorm", "schema", "init", "main", "iota",
             "true", "false", "nil", "int", "uint", "string", "len", "cap", "new", "make", "any", "error", "time",
             "os", "bufio", "strconv", "reflect", "sort", "big", "_"}
@@ -366,8 +366,15 @@ class Names:
         rng = self.rng
         for _ in range(200):
             w = rng.choice(WORDS)
-            st = style or rng.choice(["pre", "pre", "pre", "plain", "plain", "near", "pre_", "other"])
-            if st == "pre":
+            st = style or rng.choice(["pre", "pre", "pre", "pre", "plain", "plain", "plain", "near", "near", "pre_",
+                                      "pre_", "other", "other", "suf", "dbl", "mid"])
+            if st == "suf":          # the type name as a suffix / twice / in the middle: only a PREFIX is trimmed
+                n = w + T
+            elif st == "dbl":
+                n = T + T + w
+            elif st == "mid":
+                n = w + T + rng.choice(WORDS)
+            elif st == "pre":
                 n = T + w
             elif st == "pre_":
                 n = T + "_" + w
@@ -761,6 +768,10 @@ def _gen_enum_pkg(rng, name, profile, max_hb, allow_gorm):
     for T, kind in spec.types:
         want_bit = (profile == "c14" and (rng.random() < 0.85 or not bit_types)) or \
                    (profile != "c14" and rng.random() < 0.12)
+        if T[0].lower() in "iv":
+            # open finding K_bit_receiver_shadow: -bit on a type named I.../V... (receiver i/v clashes with the
+            # template's i_ / v_): kept out of the -bit stream, its witnesses are replayed by c14.py
+            want_bit = False
         if want_bit:
             blocks, feats = gen_bit_type(b, T, rng, max_hb)
             bit_types.add(T)
